@@ -306,6 +306,7 @@ func init() {
 			}
 			var res HostileResult
 			json.Unmarshal(r.Res, &res)
+			attachItem(res.Viol, "hostile", raw[r.Index])
 			tot.Attempts += res.Attempts
 			tot.Panics += res.Panics
 			tot.Rejected += res.Rejected
